@@ -36,7 +36,10 @@ Definition entries : list (string * (sexp -> option sexp)) := [
   ("C09.assemble", Files.run_assemble_parts);
   ("C09.boilerplate", Files.run_boilerplate);
   ("C10.step", Files.run_genverify);
-  ("C01.universe", Universe.run_universe)
+  ("C01.universe", Universe.run_universe);
+  ("C06.universe", Universe.run_universe);
+  ("C06.lookups", Universe.run_lookups);
+  ("C20.preds", Universe.run_preds)
 ]%string.
 
 Fixpoint find_entry (name : str) (l : list (string * (sexp -> option sexp))) : option (sexp -> option sexp) :=
